@@ -4,6 +4,7 @@ import Pyunicorn.Model.Relabel
 import Pyunicorn.Model.Repr
 import Pyunicorn.Model.NetRW
 import Pyunicorn.Model.NetBetwDef
+import Pyunicorn.Model.CrossBetw
 /-! Line-protocol driver for C04. -/
 open Pyunicorn Pyunicorn.Proto Pyunicorn.Nsi
 
@@ -110,7 +111,8 @@ def netWeightedRelabelled (perm adjS mS wS : String) : String :=
 
 /-- round 5 — C03's kernel model of `_nsi_betweenness` and its definition on `permuted_copy(perm)`
 with the node weights, the source mask and the target list renumbered with the nodes; round 5b — and
-C03's model of the public wrapper with default / renumbered node-list arguments -/
+C03's model of the public wrapper with default / renumbered node-list arguments; round 5d — and
+C11's wrapper models of `cross_betweenness`, `internal_betweenness`, `nsi_cross_betweenness` -/
 def betwRelabelled (perm adjS wS srcS tgS : String) : String :=
   let idx := permFn (nats perm)
   let A := boolMat adjS; let n := A.length
@@ -130,7 +132,13 @@ def betwRelabelled (perm adjS wS srcS tgS : String) : String :=
     showRats (NetBetw.apiBetweenness n a w none none true),
     showRats (NetBetw.apiBetweenness n a w S none true),
     showRats (NetBetw.apiBetweenness n a w none T true),
-    showRats (NetBetw.interregionalBetweenness n a w S T)] "|"
+    showRats (NetBetw.interregionalBetweenness n a w S T),
+    -- round 5d: C11's wrapper models of the node-group measures of `InteractingNetworks`
+    -- (`cross_betweenness_relabel`, `cross_internal_betweenness_relabel`,
+    -- `cross_nsi_betweenness_relabel`): source mask by `Cross.srcMask` (a fold of stores)
+    showRats (Cross.crossBetweenness n a (S.getD []) targets),
+    showRats (Cross.internalBetweenness n a (S.getD [])),
+    showRats (Cross.nsiCrossBetweenness n a w (S.getD []) targets)] "|"
 
 /-- `Pyunicorn.Cross` (C11) on the renumbered network with the renumbered node lists -/
 def crossRelabelled (perm dirS adjS wS l1 l2 dS : String) : String :=
